@@ -663,15 +663,51 @@ impl<A: Cx> World<A> {
                 let a = st["a"].as_u64().unwrap_or(0) as usize;
                 let b = st["b"].as_u64().unwrap_or(0) as usize;
                 let s = self.regs[d].as_mut().unwrap();
-                match st["f"].as_str().unwrap() {
-                    "r" => s.remove(a..b),
-                    "ri" => s.remove(a..=b),
-                    "rt" => s.remove(..b),
-                    "rti" => s.remove(..=b),
-                    "rf" => s.remove(a..),
-                    "full" => s.remove(..),
-                    "idx" => s.remove(a..a + 1),
-                    o => panic!("harness: range form {o}"),
+                // `remove` takes any RangeBounds: the same abstract range is presented in different
+                // spellings (range syntax, or a pair of Bounds with an excluded / included start and
+                // end), chosen as a function of the call itself so that a replay makes the same call
+                let f = st["f"].as_str().unwrap();
+                let n = s.len();
+                let (lo, hi) = match f {
+                    "r" => (a, b),
+                    "ri" => (a, b + 1),
+                    "rt" => (0, b),
+                    "rti" => (0, b + 1),
+                    "rf" => (a, n),
+                    "full" => (0, n),
+                    _ => (a, a + 1),
+                };
+                let spell = match op.get("spell").and_then(|v| v.as_u64()) {
+                    Some(k) => k as usize,
+                    None => (a + 3 * b + n) % 4,
+                };
+                if spell != 0 && lo <= hi && hi <= n {
+                    use std::ops::Bound::{Excluded, Included, Unbounded};
+                    let start = match spell {
+                        1 if matches!(f, "rt" | "rti" | "full") => Unbounded,
+                        1 => Included(lo),
+                        _ if lo > 0 => Excluded(lo - 1),
+                        _ => Unbounded,
+                    };
+                    let end = match spell {
+                        1 if matches!(f, "rf" | "full") => Unbounded,
+                        1 if matches!(f, "ri" | "rti") => Included(hi - 1),
+                        3 if hi > 0 => Included(hi - 1),
+                        2 if hi == n && (a + b) % 2 == 0 => Unbounded,
+                        _ => Excluded(hi),
+                    };
+                    s.remove((start, end));
+                } else {
+                    match f {
+                        "r" => s.remove(a..b),
+                        "ri" => s.remove(a..=b),
+                        "rt" => s.remove(..b),
+                        "rti" => s.remove(..=b),
+                        "rf" => s.remove(a..),
+                        "full" => s.remove(..),
+                        "idx" => s.remove(a..a + 1),
+                        o => panic!("harness: range form {o}"),
+                    }
                 }
                 view(self.reg(d))
             }
@@ -718,6 +754,25 @@ impl<A: Cx> World<A> {
                     })
                 }
                 .expect("harness: codec lacks the transform");
+                self.put(gu(op, "dst"), s)
+            }
+            "bitop" if gs(op, "via") == "move" => {
+                // the owned operators CONSUME their operands: the sequences held by two registers --
+                // with whatever history produced them (results of borrowed operators on offset windows,
+                // edits, copies) -- are moved into bit_and / bit_or; the registers are refilled with clones
+                let (rx, ry) = (gu(&op["x"], "r"), gu(&op["y"], "r"));
+                assert!(rx != ry && op["x"]["path"].as_array().map_or(true, |p| p.is_empty()) && op["y"]["path"].as_array().map_or(true, |p| p.is_empty()),
+                    "harness: bitop via move takes two different whole registers");
+                let x = self.regs[rx].take().expect("harness: empty register");
+                let y = self.regs[ry].take().expect("harness: empty register");
+                let (cx, cy) = (x.clone(), y.clone());
+                let s = match gs(op, "t") {
+                    "or" => x.bit_or(y),
+                    "and" => x.bit_and(y),
+                    o => panic!("harness: bitop {o:?}"),
+                };
+                self.regs[rx] = Some(cx);
+                self.regs[ry] = Some(cy);
                 self.put(gu(op, "dst"), s)
             }
             "bitop" => {
